@@ -50,6 +50,9 @@ type reader struct {
 	missing string
 	applied int
 	cache   map[tlog.Tile][]byte // true tiles of this (log, n), per worker
+	// zeroCopy: hand out the cached true tile itself (not a copy) when no fault applies to it; the code
+	// under test must treat tile data as read-only
+	zeroCopy bool
 }
 
 func (r *reader) trueTile(t tlog.Tile) ([]byte, bool) {
@@ -93,7 +96,9 @@ func (r *reader) ReadTiles(tiles []tlog.Tile) ([][]byte, error) {
 			}
 		} else {
 			data, ok = r.trueTile(t)
-			data = append([]byte(nil), data...)
+			if !r.zeroCopy {
+				data = append([]byte(nil), data...)
+			}
 		}
 		if !ok {
 			return nil, fmt.Errorf("tile %s does not exist in a tree of %d records", t.Path(), r.n)
@@ -725,7 +730,7 @@ func reuse(r *fw.Run, lg *tlogx.Log) {
 			for pos, t := range probe.fetched {
 				for _, mi := range menu(t, true) {
 					f := []faultT{{pos, mi.kind, mi.arg}}
-					rd := &reader{lg: lg, n: n, h: h, cache: cache}
+					rd := &reader{lg: lg, n: n, h: h, cache: cache, zeroCopy: true}
 					hr := tlog.TileHashReader(tree, rd)
 					l.States++
 					hist := fmt.Sprintf("faulted read of %d", i)
@@ -737,6 +742,14 @@ func reuse(r *fw.Run, lg *tlogx.Log) {
 						}
 						hist = fmt.Sprintf("faulted read of %d, then honest read of %d", i, x)
 						msg, _ = read(hr, rd, []int64{x}, nil)
+					}
+					if msg == "" && rd.zeroCopy {
+						for t, d := range cache {
+							if want, ok := world.TrueTile(lg, n, t); ok && d != nil && !bytes.Equal(want, d) {
+								msg = fmt.Sprintf("tile data handed out by the TileReader (%s) was written to", t.Path())
+								cache[t] = want
+							}
+						}
 					}
 					if msg != "" {
 						l.Outcomes["reuse:VIOLATION"]++
